@@ -165,6 +165,27 @@ def replay(ck, em, rec):
     st = g.acc_stats(X)
     if not same([float(st.log_likelihood)], [float(sum(lse(row) for row in exp_terms))]):
         return bad("StatsLogLikelihood", "acc_stats(X).log_likelihood %r, expected %r" % (float(st.log_likelihood), float(sum(exp_ll))))
+    # ---- the same machine and samples far from the origin (GmmDensity.AffineShift with a = 1: nothing may move)
+    for b in (1e6, -3e7):
+        g3 = em.GMMMachine(len(rec["m"]["w"]), weights=np.array([float(F(*x)) for x in rec["m"]["w"]]))
+        g3.variance_thresholds = float(F(*rec["m"]["floor"]))
+        g3.means = np.asarray(g.means) + b
+        g3.variances = np.asarray(g.variances)
+        Xb = X + b
+        near = np.abs(X).max() < 1e3         # (X + b) - (mu + b) is exact only for moderate samples
+        if not near:
+            continue
+        got = np.asarray(g3.log_likelihood(Xb))
+        if not same(got, exp_ll, 1e-7):
+            return bad("FarFromOrigin", "features shifted by %g (NumPy batch): log_likelihood %s, expected %s" % (b, got.tolist(), exp_ll.tolist()))
+        with dask.config.set(scheduler="synchronous"):
+            gd = np.asarray(g3.log_likelihood(da.from_array(Xb, chunks=(tuple(rec["comp"]), D))).compute())
+            sd = g3.acc_stats(da.from_array(Xb, chunks=(tuple(rec["comp"]), D)))
+            nd = np.asarray(dask.compute(sd.n)[0], dtype=float)
+        if not same(gd, exp_ll, 1e-7):
+            return bad("FarFromOrigin", "features shifted by %g (Dask array): log_likelihood %s, expected %s" % (b, gd.tolist(), exp_ll.tolist()))
+        if not same(nd, np.asarray(st.n, dtype=float), 1e-6):
+            return bad("FarFromOrigin", "features shifted by %g (Dask array): responsibilities %s, unshifted %s" % (b, nd.tolist(), np.asarray(st.n).tolist()))
     # ---- the same machine widened: its features repeated T times (each component becomes a product of T
     # independent copies, so every weighted log-density is log w + T * (term - log w)) and expressed in other
     # units (x -> a x shifts every log-density by -D' log|a|, GmmDensity.AffineShift).  Many features with
